@@ -316,7 +316,11 @@ class Ledger:
                         if have[0] >= need:
                             continue
                         q = is_slice_param(b, lens.pv.op_tree(t["args"][p - 1]))
-                        if q is not None:
+                        if q is not None and b.j.get("exported") and b.j.get("pub") and not b.is_closure:
+                            # the caller is public API: its own parameter is whatever the host passes - the requirement
+                            # cannot be delegated any further
+                            unsat.append((b, bi, t, callee, p, need, have[0]))
+                        elif q is not None:
                             cur = req.setdefault(b.key, {}).get(q, 0)
                             if cur < need:
                                 req[b.key][q] = need
@@ -1283,6 +1287,41 @@ def run_guards(ctx, prog, guards):
                                   "the ring-buffer cursor/fill of the measurement error estimator is written in a way that "
                                   "does not keep it within the data array (%s): data[next_idx] can index out of bounds / "
                                   "the increments can overflow" % (bad or "no writers found"))
+            except AnchorMissing as e:
+                rep.anchor_missing("PANIC-GUARD", str(e))
+        elif g == "kalman_filters_in_lockstep":
+            # progress_filtertime's debug_assert(time >= filter_time) holds for the WANDER filter only because
+            # measurement() guards on the running filter's time and both filters are steered identically: every
+            # absorb_offset_steer / absorb_frequency_steer of one is matched by the same call on the other
+            try:
+                n_fn = 0
+                bad = []
+                for kb in prog.bodies.values():
+                    if kb.unit.name != "statime-lib" or kb.is_test() or kb.self_name != "KalmanFilter":
+                        continue
+                    pvk = df.Prov(kb)
+                    per = {"running_filter": [], "wander_filter": []}
+                    for bi, t, cal in mir.iter_calls(kb):
+                        if cal["name"] not in ("absorb_offset_steer", "absorb_frequency_steer") or not t["args"]:
+                            continue
+                        recv = df.canon(pvk.op_tree(t["args"][0]), kb)
+                        for fld in per:
+                            if recv.endswith(fld):
+                                per[fld].append((cal["name"], tuple(df.canon(pvk.op_tree(a), kb) for a in t["args"][1:])))
+                    if per["running_filter"] or per["wander_filter"]:
+                        n_fn += 1
+                        if sorted(per["running_filter"]) != sorted(per["wander_filter"]):
+                            bad.append("%s: running %s / wander %s" % (kb.name, per["running_filter"], per["wander_filter"]))
+                if n_fn == 0:
+                    raise AnchorMissing("no steering of running_filter / wander_filter found in KalmanFilter")
+                if bad:
+                    rep.violation("PANIC-GUARD", "statime::filters::kalman::<KalmanFilter>", "guard:kalman_filters_in_lockstep",
+                                  "the running and the wander filter are no longer steered alike (%s): after a backward step "
+                                  "their time bases differ, the wander filter is progressed to a time before its own and "
+                                  "debug_assert!(time >= self.filter_time) panics" % "; ".join(bad))
+                else:
+                    rep.ok("PANIC-GUARD", "statime::filters::kalman::<KalmanFilter>", "guard:kalman_filters_in_lockstep",
+                           detail={"functions": n_fn})
             except AnchorMissing as e:
                 rep.anchor_missing("PANIC-GUARD", str(e))
         elif g == "reverse_index_removal":
